@@ -189,6 +189,16 @@ func (env *Env) resolveType(e ast.Expr) types.Type {
 					}
 				}
 			}
+			// a package the contract's package does not (or no longer) import: any loaded package of that name
+			for _, sp := range env.g.w.Prog.AllPackages() {
+				if sp.Pkg.Name() == id.Name {
+					if o := sp.Pkg.Scope().Lookup(e.Sel.Name); o != nil {
+						if _, isType := o.(*types.TypeName); isType {
+							return o.Type()
+						}
+					}
+				}
+			}
 		}
 	case *ast.ArrayType:
 		if e.Len == nil {
